@@ -7,7 +7,7 @@ HERE = os.path.dirname(os.path.dirname(os.path.abspath(__file__)))
 CHECKS = {
  "C01": ("lock-step shadow monitor: real simulator vs reference ICWS'94 step (EMI94 transliteration) after every cycle, plus internal-invariant hook",
          "Runtime monitoring. A boundary grid (every one of the 7616 forms x A,B in {0,1,2,M-1} x six limit classes) is walked completely, cores above 2^16 and pointer sums aimed at the discontinuities of Fold are covered by dedicated strata, and every form is executed at the PC many more times under independent random read/write limits and boundary-biased fields, also on simulators that were Reset before and next to bystander simulators; after every step the monitor compares the whole core and the whole process queue with an independently written reference interpreter. Holds only for the executions produced (counts in the evidence file).",
-         "Trusted: the reference interpreter in ref/mars (written from the ICWS'94 draft), the Go toolchain. M capped at 2^20.", "3/C01"),
+         "Trusted: the reference interpreter in ref/mars (written from the ICWS'94 draft), the Go toolchain. M up to 3*10^6 cells (a few such cases per run; most cores are tiny so that everything collides).", "3/C01"),
  "C02": ("lock-step shadow of whole battles through a Reporter (executed PCs) plus API snapshots after every cycle; relational monitor Run() vs RunCycle loop on two real simulators",
          "Runtime monitoring of whole battles (1-4 hostile warriors on tiny cores so that they collide, die, hit the process and cycle limits; long battles of the repository's warriors on a core of 8000 reaching 8000 processes; cycle limits up to 2^64-1) against a reference scheduler after every cycle, and of Run() against cycle-by-cycle driving. Decides the property on the battles produced; evidence counts the scheduling events actually seen (multi-warrior deaths, mid-cycle decisions, dropped pushes, cycle-limit ties).",
          "Trusted: reference scheduler ref/mars/battle.go. Assumption recorded: the cycle in which a multi-warrior battle is decided is not counted.", "3/C02"),
@@ -100,7 +100,7 @@ def main():
         },
         "engines": [{"name": "vrun", "path": "/verif/cmd/vrun", "serves_properties": sorted(CHECKS), "kind_free_text": "orchestrator: rebuilds the monitor worker (/verif/worker, tag verif) against /repo, shards deterministic workloads over 16 child processes, merges monitor observations, matches known findings, writes evidence"}],
         "checks": checks,
-        "notes": "Technique family: runtime monitoring and sanitizers. Known findings: /verif/known_findings.jsonl. Seeded changes used to validate the monitors: /verif/seeded/.",
+        "notes": "Technique family: runtime monitoring and sanitizers. Known findings and repaired defects: /verif/known_findings.txt (4 known, all C08; 30 fixed). Seeded changes used to validate the monitors: /verif/seeded/ (339 changes by sub-agents in ten rounds, 6 behaviour-preserving refactorings as negative controls); catch matrix in DESIGN.md section 5. Cross-cutting stimuli added because of them: history disturbance and reader delivery kinds (worker/disturb.go), cold-start bursts in fresh processes (worker/coldstart.go).",
         "not_applicable": na,
     }
     json.dump(m, open(os.path.join(HERE, "MANIFEST.json"), "w"), indent=1)
